@@ -183,6 +183,21 @@ def shell_pairs():
             tag = "with-%s-%s" % (flag, val)
             add(tag + ".arg-tag", "args", setarg(BF, 2, "T'"), a=BF)
             add(tag + ".env-value", "env", mut(BF, env=[("K1", "V9"), ("AB", "C")]), a=BF)
+    # every edge of the flag cube {allow-missing-inputs, allow-modified-outputs, always-out-of-date}:
+    # definitions differing in exactly one flag while the others stay set (both directions). The
+    # edges from the empty corner are the three single-flag pairs above.
+    flags = ("allow-missing-inputs", "allow-modified-outputs", "always-out-of-date")
+    for mask in range(1, 8):
+        BF = B
+        for i, f in enumerate(flags):
+            if mask & (1 << i):
+                BF = mut(BF, **{"attr_" + f.replace("-", "_"): "true"})
+        for i, f in enumerate(flags):
+            if mask & (1 << i):
+                continue
+            other = mut(BF, **{"attr_" + f.replace("-", "_"): "true"})
+            add("flags-%d.plus-%s" % (mask, f), f, other, a=BF)
+            add("flags-%d.minus-%s" % (mask | (1 << i), f), f, BF, a=other)
     return P
 
 
